@@ -20,7 +20,7 @@
    6c3ffaf (xargs) 5143c77 (quote removal) and the fd appended-path repair; what was refuted before them is now proved, and the old
    behaviour is kept as Legacy definitions with their refutations. *)
 From DippyV Require Import Base.Str Base.Verdict Gen.Tables Model.BashQuote Model.Getopt Model.Wrappers Model.WrapSpec
-  Proofs.VerdictP Proofs.BashQuoteP Proofs.WrappersP Proofs.WrapOptsP.
+  Proofs.VerdictP Proofs.BashQuoteP Proofs.WrappersP Proofs.WrapOptsP Proofs.FdClausesP.
 
 (* ------------------------------------------------------------------ re-quoting *)
 (* faithful for EVERY string: bash reads bash_quote s back as the single word s *)
@@ -186,6 +186,18 @@ Theorem C04_extract_fd : forall flag c0 cs,
   fd_exec (flag :: c0 :: cs) = Some [fd_path (c0 :: cs)].
 Proof. exact fd_extract. Qed.
 Print Assumptions C04_extract_fd.
+(* ... and for ANY number of exec clauses  fd -x C1 ; -x C2 ; ... ; -x Cn : one delegated command per clause, each the
+   command fd runs (induction over the clause list; the handler's recursion behind a lone ; is the model's fuel) *)
+Theorem C04_extract_fd_clauses : forall cs, cs <> [] -> Forall clause_ok cs ->
+  fd_h ($"fd" :: fd_line cs) = HWords (map fd_with_path cs) false /\
+  fd_exec (fd_line cs) = Some (map fd_path cs) /\
+  map fd_with_path cs = map fd_path cs.
+Proof. exact fd_clauses. Qed.
+Print Assumptions C04_extract_fd_clauses.
+Example C04_extract_fd_clauses_nonvacuous :
+  Forall clause_ok [w ["ls"]; w ["nice"; "env"]; w ["mv"; "{}"; "{.}.bak"]] /\
+  fd_line [w ["ls"]; w ["nice"; "env"]; w ["mv"; "{}"; "{.}.bak"]] = w ["-x"; "ls"; ";"; "-x"; "nice"; "env"; ";"; "-x"; "mv"; "{}"; "{.}.bak"].
+Proof. exact fd_clauses_example. Qed.
 Theorem C04_fd_path_agrees : forall c, fd_with_path c = fd_path c.
 Proof. exact fd_with_path_spec. Qed.
 Print Assumptions C04_fd_path_agrees.
